@@ -622,6 +622,24 @@ C16(pre, env, req, resp, post) ==
           If(resp.ok <=> pre.ver # NoVer, "C16.get_ver")
           \cup If(resp.ok => resp.result = [kind |-> "ver", v |-> pre.ver], "C16.get_ver"))
 
+\* "the amounts reported for an order are those a cancel would return": an accepted owner cancel pays the owner
+\* exactly the remaining amounts the stored (= queried, by get_order) order shows
+C16Cancel(pre, env, req, resp, post) ==
+  IF req.kind = "cancel_ask" /\ resp.ok /\ req.id \in DOMAIN pre.asks THEN
+    LET a == pre.asks[req.id] IN
+    If((a.owner # Contract /\ ~(a.class = "ready" /\ a.approver = a.owner))
+         => Delta(req, resp, a.owner, a.base) = a.size, "C16.cancel_agrees")
+  ELSE IF req.kind = "cancel_bid" /\ resp.ok /\ req.id \in DOMAIN pre.bids THEN
+    LET b == pre.bids[req.id] IN
+    If(b.owner # Contract => Delta(req, resp, b.owner, b.quote) = RemQ(b) + RemF(b), "C16.cancel_agrees")
+  ELSE {}
+
+\* ... and what a query reports as unspent quote is what the unfilled size is worth (what a cancel computes)
+C16State(S, native) ==
+  If(native => \A k \in DOMAIN S.bids : LET b == S.bids[k] IN
+        (b.fmt = "v3" /\ DecOk(b.price) /\ Integral(b.price, b.size - b.ab)) => b.qamt - b.aq = Times(b.price, b.size - b.ab),
+     "C16.cancel_agrees")
+
 -----------------------------------------------------------------------------
 (* C17  Response attributes *)
 Has(at, k) == k \in DOMAIN at
@@ -690,6 +708,15 @@ C17(pre, env, req, resp, post) ==
       stillopen == IF req.kind \in RevAskKinds THEN req.id \in DOMAIN post.asks ELSE req.id \in DOMAIN post.bids
   IN   If(Has(at, "action") /\ at["action"] = ActionName(req.kind) /\ idsok, "C17.action_ids")
   \cup If(rev => (Has(at, "reverse_size") /\ at["reverse_size"] = returned), "C17.reverse_size")
+  \* ... and that size was really handed back: the base units to the ask's owner, at least price x size of quote to the bid's
+  \cup If((rev /\ Has(at, "reverse_size") /\ req.kind \in RevAskKinds /\ req.id \in DOMAIN pre.asks) =>
+            LET a == pre.asks[req.id] IN
+            (a.owner # Contract /\ ~(a.class = "ready" /\ a.approver = a.owner /\ a.base = pre.cfg.base))
+              => Delta(req, resp, a.owner, a.base) = at["reverse_size"], "C17.reverse_size")
+  \cup If((rev /\ Has(at, "reverse_size") /\ req.kind \in RevBidKinds /\ req.id \in DOMAIN pre.bids) =>
+            LET b == pre.bids[req.id] IN
+            (b.owner # Contract /\ DecOk(b.price) /\ Integral(b.price, at["reverse_size"]))
+              => Delta(req, resp, b.owner, b.quote) >= Times(b.price, at["reverse_size"]), "C17.reverse_size")
   \cup If(rev => (Has(at, "order_open") /\ at["order_open"] = BoolStr(stillopen)), "C17.order_open")
   \cup (IF IsMatch(req) /\ req.ask_id \in DOMAIN pre.asks /\ req.bid_id \in DOMAIN pre.bids THEN
           LET cfg == pre.cfg  b == pre.bids[req.bid_id]
@@ -738,10 +765,12 @@ StepClauses(pre, env, req, resp, post) ==
   \cup C09Step(pre, env, req, resp, post) \cup C10(pre, env, req, resp, post)
   \cup C11Step(pre, env, req, resp, post) \cup C12(pre, env, req, resp, post)
   \cup C13Step(pre, env, req, resp, post) \cup C14(pre, env, req, resp, post)
-  \cup C15(pre, env, req, resp, post) \cup C16(pre, env, req, resp, post) \cup C17(pre, env, req, resp, post)
+  \cup C15(pre, env, req, resp, post) \cup C16(pre, env, req, resp, post) \cup C16Cancel(pre, env, req, resp, post)
+  \cup C17(pre, env, req, resp, post)
 
 \* `frozen`: no migration has overridden a fee since the open bids were placed
 StateClauses(S, frozen, native) ==
   IF ~S.cfg.set THEN {} ELSE      \* a store without a configuration holds no admitted orders
   C08State(S) \cup C09State(S, native) \cup C11State(S, native) \cup C12State(S, frozen, native) \cup C13State(S)
+  \cup C16State(S, native)
 =============================================================================
